@@ -49,6 +49,7 @@ pub fn replay_rows(tlc_out: &str, rep: &mut Report) {
     for payload in tlc_rows(tlc_out, "ROW") {
         let Ok(row) = serde_json::from_str::<J>(&payload) else { continue };
         rep.count("rows");
+        rep.ctx = Some(json!({"sub": "c06-replay", "row": payload}));
         let text = text_of(&row["text"]);
         let an = analyze(&text);
         let (ok, kind, panicked) = run_text(&[text.clone()], &["1"], 1, 200);
